@@ -172,13 +172,35 @@ fn run_case(out: &mut Out, case: usize, src: &str, a: &[Lay], t: &Tr) {
     }
     let bx = bbox(a, &b, 2);
     out.ev(&json!({"ev":"reset","case":case,"src":src}));
+    // moving layers is also done THROUGH THE API on the built document A (set_offset, a drag = preview offset first, a drag
+    // that is put back): the mutated document must show what the directly built stack (B, or A for "put back") shows
+    let route = case % 4;
     let r = guard(|| {
         let ba = build(a);
         let bb = build(&b);
-        (observe(&ba, bx), observe(&bb, bx))
+        let gm = if t.op == "move" || t.op == "translate" {
+            let mut bm = build(a);
+            for (i, l) in bm.layers.iter_mut().enumerate() {
+                if t.op == "move" && i != t.k - 1 { continue; }
+                let old = l.get_base_offset();
+                let new = old + icy_engine::Position::new(t.d.0, t.d.1);
+                match route {
+                    0 => l.set_offset(new),
+                    1 => { l.set_preview_offset(Some(new + icy_engine::Position::new(3, -2))); l.set_offset(new); }
+                    2 => l.set_preview_offset(Some(new)),
+                    _ => { l.set_preview_offset(Some(new)); l.set_offset(old); }
+                }
+            }
+            observe(&bm, bx)
+        } else { Value::Null };
+        (observe(&ba, bx), observe(&bb, bx), gm)
     });
     match r {
-        Ok((ga, gb)) => out.ev(&json!({"ev":"law","case":case,"tr":tr_json(t),"A":stack_json(a),"B":stack_json(&b),"box":bx,"gA":ga,"gB":gb})),
+        Ok((ga, gb, gm)) => {
+            let mut ev = json!({"ev":"law","case":case,"tr":tr_json(t),"A":stack_json(a),"B":stack_json(&b),"box":bx,"gA":ga,"gB":gb});
+            if !gm.is_null() { ev["gM"] = gm; ev["route"] = json!(route); ev["exp"] = json!(if route == 3 { "A" } else { "B" }); }
+            out.ev(&ev)
+        }
         Err(p) => out.ev(&json!({"ev":"panic","case":case,"tr":tr_json(t),"A":stack_json(a),"B":stack_json(&b),"box":bx,"site":panic_site(&p),"msg":p.msg})),
     }
 }
